@@ -390,3 +390,46 @@ contract(FT, "prune#body", source="prune", props=["C05"], aliases=AL,
                      modifies=["*rdict", "all:Set(Seq(Int))"])},
          modifies=["*rdict", "all:Set(Seq(Int))"],
          notes="on return every surviving rule has all its children among the surviving keys; only removals happened")
+
+# ------------------------------------------------------------------ C05: iterative_prune -- what holds for the returned dictionary
+# every kept rule is a rule of the input for the same key, and each of its children is the root or itself a key of the result
+# (iteratively verifiable); that nothing iteratively verifiable is lost is checked by the bounded stand-in
+_VL = "(({x}) in verified_labels)"
+_ISUB = ("forall(lambda k, r=Seq(Int): implies(k in new_rules_dict and r in new_rules_dict[k], "
+         "k in rules_dict and r in rules_dict[k]))")
+_IVER = ("forall(lambda k, r=Seq(Int): implies(k in new_rules_dict and r in new_rules_dict[k], "
+         "k in verified_labels and forall(lambda q: implies(0 <= q and q < len(r), r[q] in verified_labels))))")
+_VORIG = ("forall(lambda v: implies(v in verified_labels, (not is_none(root) and v == val(root)) or v in new_rules_dict))")
+_RSUB = ("forall(lambda k, r=Seq(Int): implies(k in rdict and r in rdict[k], k in rules_dict and r in rules_dict[k]))")
+_NDIST = ("forall(lambda k, l: implies(k in new_rules_dict and l in new_rules_dict and k != l, "
+          "not same(new_rules_dict[k], new_rules_dict[l])))")
+_RDIST = "forall(lambda k, l: implies(k in rdict and l in rdict and k != l, not same(rdict[k], rdict[l])))"
+_CROSS = ("forall(lambda k, l: implies(k in rdict and l in new_rules_dict, not same(rdict[k], new_rules_dict[l])))")
+_FRESHN = "fresh(new_rules_dict) and forall(lambda k: implies(k in new_rules_dict, fresh(new_rules_dict[k])))"
+_FRESHR = "fresh(rdict) and forall(lambda k: implies(k in rdict, fresh(rdict[k])))"
+_INPUT_SAME = ["forall(lambda k: (k in rules_dict) == old(k in rules_dict))",
+               "forall(lambda k: implies(k in rules_dict, same(rules_dict[k], old(rules_dict[k]))))",
+               "forall(lambda k, r=Seq(Int): implies(k in rules_dict, (r in rules_dict[k]) == old(r in rules_dict[k])))"]
+_IP_INV = _INPUT_SAME + ["forall(lambda k: implies(k in rdict, same(rdict[k], at('loop0', rdict[k]))))",_ISUB, _IVER, _VORIG, _RSUB, _NDIST, _RDIST, _CROSS, _FRESHN, _FRESHR, "fresh(verified_labels)",
+           "forall(lambda k: implies(k in new_rules_dict, len(new_rules_dict[k]) > 0))"]
+_IP_MODS = ["all:Set(Int)", "all:Set(Seq(Int))", "all:DefaultDict(Int, Set(Seq(Int)))"]
+contract(FT, "iterative_prune#body", source="iterative_prune", props=["C05"], aliases=AL,
+         params={"rules_dict": RulesDict, "root": Opt(Int)}, returns=RulesDict,
+         locals={"verified_labels": Set(Int), "new_rules_dict": RulesDict, "rdict": RulesDict},
+         ensures=["fresh(result)",
+                  "forall(lambda k, r=Seq(Int): implies(k in result and r in result[k], k in rules_dict and r in rules_dict[k]))",
+                  "forall(lambda k, r=Seq(Int): implies(k in result and r in result[k], forall(lambda q: implies(0 <= q and "
+                  "q < len(r), (not is_none(root) and r[q] == val(root)) or r[q] in result))))",
+                  # the input is not touched
+                  "forall(lambda k: (k in rules_dict) == old(k in rules_dict))",
+                  "forall(lambda k, r=Seq(Int): implies(k in rules_dict, (r in rules_dict[k]) == old(r in rules_dict[k])))"],
+         loops={0: dict(invariant=_IP_INV, modifies=_IP_MODS),
+                1: dict(invariant=_IP_INV + ["forall(lambda j: implies(_i1 <= j and j < _n1, _keys1[j] in rdict))"], modifies=_IP_MODS),
+                2: dict(invariant=_IP_INV + ["forall(lambda j: implies(_i1 < j and j < _n1, _keys1[j] in rdict))",
+                                             "k in rdict and same(rdict[k], rule_set)",
+                                             "forall(lambda j: implies(_i2 <= j and j < _n2, _keys2[j] in rule_set))"],
+                        modifies=_IP_MODS)},
+         ghost_stmts={"before:expr#3": ["assert rule in rule_set", "assert k in rdict and same(rdict[k], rule_set)"],
+                      "before:expr#4": ["assert rule in rule_set", "assert k in rdict and same(rdict[k], rule_set)"]},
+         modifies=_IP_MODS,     # coarse; that the INPUT is untouched is stated (and proved) as postconditions above
+         notes="the input dictionary is deep-copied first; only the copy and the new objects change")
